@@ -130,7 +130,17 @@ Fixpoint side (s : shape) (p : vec3 Q) : comparison :=
 Inductive case :=
 | CEval (exact : bool) (s : shape) (p : vec3 Q) (out tol : Q)   (* Go: out = shape(p) *)
 | CPair (s : shape) (p q : vec3 Q) (fp fq' : Q)                  (* Go: fp = shape(p), fq' = shape(q) *)
+| CPanics (op n : nat) (panicked : bool)   (* Go: Union (op 0) / Intersect (1) of n fields, VarryingThicknessLine (2) of n
+                                             points panicked with its own message (true) or returned a field (false) *)
 | CGo.                                                           (* judged by the harness only (float search) *)
+
+(* the generated <f>_panics companions on n arbitrary operands *)
+Definition model_panics (op n : nat) : bool :=
+  match op with
+  | 0%nat => Union_panics (repeat (Sphere (V 0 0 0) 1) n)
+  | 1%nat => Intersect_panics (repeat (Sphere (V 0 0 0) 1) n)
+  | _ => VarryingThicknessLine_panics (map (fun i => mkLinePoint (V (inject_Z (Z.of_nat i)) 0 0) 1) (seq 0 n))
+  end.
 
 Definition close (a b tol : Q) : bool := Qle_bool (Qabs (a - b)) tol.
 
@@ -138,6 +148,7 @@ Definition corr_ok (c : case) : bool :=
   match c with
   | CEval ex s p out tol => if ex then Qeq_bool (eval s p) out else close (eval s p) out tol
   | CPair _ _ _ _ _ => true
+  | CPanics op n b => Bool.eqb (model_panics op n) b
   | CGo => true
   end.
 
@@ -155,5 +166,8 @@ Definition prop_ok (c : case) : bool :=
       (* |fp - fq| <= |p - q| (1 + 1e-9) + 1e-12, compared through squares *)
       let a := Qabs (fp - fq') - (1 # 1000000000000) in
       Qle_bool a 0 || Qle_bool (a * a) (d2 p q * qsq (1 + (1 # 1000000000)))
+  | CPanics op n b =>
+      (* the operators are defined on every non-empty operand list, the polyline on two or more points *)
+      Bool.eqb b (match op with 0%nat | 1%nat => Nat.eqb n 0 | _ => Nat.ltb n 2 end)
   | CGo => true
   end.
